@@ -115,6 +115,12 @@ impl Step {
     }
 }
 
+/// Class prefix of the property the running check decides ("admit:", "inv:", "custody:", "budget:").
+/// Findings of OTHER properties' oracles do not end a run: they are counted and the run goes on, so that
+/// each check reports its own property's violation even when another oracle fires first. Empty = stop
+/// at any finding.
+pub static FOCUS_PREFIX: std::sync::OnceLock<String> = std::sync::OnceLock::new();
+
 /// Everything the oracles found wrong at one step. Several oracles are
 /// evaluated at every step; each finding's class prefix names the property it
 /// belongs to (admit: C19, inv: C20, custody: C21, budget: C22).
@@ -206,6 +212,8 @@ pub struct Exec<'a, B: Backend> {
     pub pushes: Vec<PushRecord>,
     pub all_pushes: Vec<PushRecord>,
     pub probes: Counters,
+    /// findings of other properties' oracles that did not end the run
+    pub foreign: Counters,
     pub states: HashSet<u64>,
     pub triples: HashSet<u64>,
     /// event log lines (deterministic), for the determinism self-test
@@ -244,6 +252,7 @@ impl<'a, B: Backend> Exec<'a, B> {
             pushes: vec![],
             all_pushes: vec![],
             probes: Counters::default(),
+            foreign: Counters::default(),
             states: HashSet::new(),
             triples: HashSet::new(),
             log: vec![],
@@ -430,7 +439,13 @@ impl<'a, B: Backend> Exec<'a, B> {
             }
         };
         if !findings.is_empty() {
-            return Err(Violation { at_step: at, findings });
+            let focus = FOCUS_PREFIX.get().map(|s| s.as_str()).unwrap_or("");
+            if focus.is_empty() || findings.iter().any(|(c, _)| c.starts_with(focus)) {
+                return Err(Violation { at_step: at, findings });
+            }
+            for (c, _) in &findings {
+                self.foreign.inc(c);
+            }
         }
         let out = if let Step::Stats { .. } = step { Outcome::Stats(stats) } else { out };
 
